@@ -1294,4 +1294,5 @@ func main() {
 	}
 	emitContents(*repo, *outDir)
 	emitLevel(*repo, *outDir)
+	emitCmds(*repo, *outDir)
 }
